@@ -37,8 +37,7 @@ Section DescTexts.
     match d with
     | None => True
     | Some desc => desc <> [] /\ po_descriptions o = true
-                   /\ noquote_body (description_body o desc 0)
-                   /\ SdlRoundtripSpec.block_string_value (description_body o desc 0) = desc
+                   /\ desc_body_ok (description_body o desc 0) desc
     end.
 
   Definition desc_text (d : option str) : str :=
@@ -185,10 +184,10 @@ Section Items.
     item_ok fv (desc_text o d ++ text, set_desc (strval_of d) d0).
   Proof.
     intros Hd Hu (Hne & HL & Hns). destruct d as [[|c r]|]; try (split; [exact Hne|split; [exact HL|exact Hns]]).
-    destruct Hd as (_ & _ & Hb & Hv). cbn [desc_text strval_of set_desc fst snd] in *.
+    destruct Hd as (_ & _ & Hb). cbn [desc_text strval_of set_desc fst snd] in *.
     split; [discriminate|]. split.
     - rewrite <- app_assoc.
-      eapply lexok_weaken; [|apply (desc_prefix_lexok _ (c :: r) text _ Hb Hv HL)].
+      eapply lexok_weaken; [|apply (desc_prefix_lexok _ (c :: r) text _ Hb HL)].
       intros ts (dsts & rest & -> & HD & HP). apply add_description; assumption.
     - intros (l & sels & l' & He). destruct d0; simpl in Hu; try contradiction; discriminate.
   Qed.
